@@ -240,7 +240,9 @@ func run(r *report.Run, shard, nshards int, replayFile string) {
 		}
 		for _, val := range vals {
 			devs = append(devs, dev{MsgType: l.MsgType, Field: l.Field, Kind: l.Kind, Value: val, Mode: "first-block"})
-			if r.Thorough() {
+			// structured receipt variants mean different things for different message kinds (the first
+			// block only has a logic call): they are also applied to every occurrence in the quick tier
+			if r.Thorough() || strings.HasPrefix(val, "rcpt:") {
 				devs = append(devs, dev{MsgType: l.MsgType, Field: l.Field, Kind: l.Kind, Value: val, Mode: "all"})
 			}
 		}
